@@ -68,8 +68,11 @@ def plan(tier, seed):
     per = 4 if tier == "quick" else 50
     for d, dwf, dwt in [("down", 64, 32), ("down", 128, 32), ("down", 256, 32), ("up", 32, 64), ("up", 32, 128), ("up", 32, 256),
                         ("conv", 32, 32), ("conv", 64, 32), ("conv", 32, 64)]:
-        for cls in ("aligned", "wrap", "fixed", "narrow", "unaligned", "incr"):
-            for k in range(per if cls == "aligned" else max(2, per // 2)):
+        # down-conversion of a WRAP burst is right as long as beats * ratio <= 16 (the narrow burst is a legal WRAP over the same
+        # container): class 'wrapfit' must be clean, only 'wraplong' (a WRAP of more than 16 beats results) carries the listed finding
+        down = dwf > dwt
+        for cls in ("aligned",) + (("wrapfit", "wraplong") if down else ("wrap",)) + ("fixed", "narrow", "unaligned", "incr"):
+            for k in range(per if cls in ("aligned", "wrapfit") else max(2, per // 2)):
                 cases.append({"kind": "conv", "dut": d, "dwf": dwf, "dwt": dwt, "cls": cls,
                               "seed": "%d/C10/%s/%d/%d/%s/%d" % (seed, d, dwf, dwt, cls, k)})
     n = 64 if tier == "quick" else 192
@@ -200,7 +203,7 @@ def run_conv(case):
     else:
         # general bursts, restricted to the window
         c09.WORDS = words
-        writes, reads = c09.gen_axi_script(rng, dwf, 0, n, feature=cls)
+        writes, reads = c09.gen_axi_script(rng, dwf, 0, n, feature=cls, ratio=max(1, dwf // dwt))
     if hard:
         m = bench.add(AXIMaster(mbus, writes, reads, rng, order=rng.choice(["together", "aw_first", "w_first"]), max_out=1,
                                 p_aw=rng.choice([1.0, 0.5]), p_w=rng.choice([1.0, 0.5]), p_ar=rng.choice([1.0, 0.5]),
